@@ -54,6 +54,9 @@ func VH_C14a() {
 		exp = exp[:limit]
 		vsym.Reach("C14a/truncated")
 	}
+	vsym.Observe("parts", len(res.Parts))
+	vsym.Observe("truncated", res.IsTruncated)
+	vsym.Observe("next", res.NextPartNumberMarker)
 	vsym.Assert(len(res.Parts) == len(exp), "C14a/page-length")
 	if len(res.Parts) == len(exp) {
 		for i := range exp {
